@@ -279,6 +279,45 @@ def dtree_fns():
                 base_split=Fn('base_split', 'src/wlearner.cpp', 'split', flt='wlearner_t::split', **bk))
 
 
+CACHE = r'^\(anonymous namespace\)::cache_t$'
+DF_TYPES = [(r'^nano::dataset_t$', 'struct nv_dataset'), (r'^nano::cluster_t$', 'struct nv_clu'),
+            (r'^nano::indices_t$|^nano::tensor_t<nano::tensor_vector_storage_t, long, 1>$', 'struct nv_ixn'),
+            (r'^std::deque<\(anonymous namespace\)::cache_t', 'struct nv_cq'), (CACHE + r'|^std::deque<.*cache_t.*>::value_type$', 'struct nv_cache'),
+            (r'^nano::dtree_node_t$|dtree_node_t>::value_type$', 'struct nv_node'),
+            (r'^nano::dtree_nodes_t$|^std::vector<nano::dtree_node_t>$', 'struct nv_nodesg'),
+            (r'^nano::stump_wlearner_t$', 'struct nv_stumpobj'), (r'^nano::wlearner_criterion$', 'int32_t'),
+            (r'^nano::tensor4d_t$|tensor_t<nano::tensor_vector_storage_t, double, 4>', 'struct nv_t4'),
+            (r'tensor_t<nano::tensor_carray_storage_t, double, 3>', 'struct nv_t3v'),
+            (r'^nano::tensor4d_dims_t$|^nano::tensor_dims_t<4>$|^std::array<long, 4', 'int64_t')]
+DF_CALLS = [(r'^operator=\|.*\|nano::parameter_t', '@drop'),
+            (r'^min\|const long &\(const long &, const long &\)', 'nv_min_i64({0}, {1})'),
+            (r'^no_fit_score\|', '(NV_NO_FIT)'),
+            (r'^ctor\|nano::tensor_t<nano::tensor_vector_storage_t, double, 4>\|void \(.*tdims\)', 'nv_t4_make({0})'),
+            (r'^cat_dims\|', 'nv_cat_dims0({0})'),      # dims -> the first dimension (the only one tracked)
+            (r'^ctor\|nano::stump_wlearner_t\|', 'nv_stump_make()'),
+            (r'^operator\[\]\|.*\|std::vector<nano::dtree_node_t', '(*nv_ng_at({&0}, {1}))'),
+            (r'^append\|void \(nano::tensor4d_t &, const nano::tensor3d_cmap_t &\)', 'nv_append({&0}, {1})'),
+            (r'^unique_features\|', 'nv_unique_features({&0})'),
+            (r'^move\|', '{0}'),
+            (r'^operator=\|.*\|std::vector<nano::dtree_node_t', 'nv_nodes_store({&0}, {&1})'),
+            (r'^operator=\|.*\|nano::tensor_t<nano::tensor_vector_storage_t, (double, 4|long, 1)>', '(({0}) = ({1}))'),
+            (r'^ctor\|nano::tensor_t<nano::tensor_carray_storage_t, double, 3>\|', '{0}')]
+DF_MEMBERS = [(r'^samples\|nano::dataset_t', 'nv_dataset_samples'), (r'^log_info\|', '@drop'),
+              (r'^emplace_back\|std::deque<.*\|#1$', 'nv_cq_push_root'), (r'^push_back\|std::deque<', 'nv_cq_push({self}, {&0}, &nodes)'),
+              (r'^empty\|std::deque<', '({self}->n == 0)'), (r'^front\|std::deque<', 'nv_cq_front({self}, &nodes)'), (r'^pop_front\|std::deque<', 'nv_cq_pop'),
+              (r'^size\|std::vector<nano::dtree_node_t', '{self}->n'), (r'^size\|nano::tensor_base_t<long, 1', '{self}->n'),
+              (r'^(emplace_back|push_back)\|std::vector<nano::dtree_node_t', 'nv_ng_push({self}, {&0}, &stump)'),
+              (r'^fit\|nano::wlearner_t', 'nv_stump_fit({self})'), (r'^feature\|nano::single_feature_wlearner_t', '{self}->m_feature'),
+              (r'^threshold\|nano::stump_wlearner_t', '{self}->m_threshold'), (r'^tables\|nano::single_feature_wlearner_t', '{self}->m_tables'),
+              (r'^split\|nano::wlearner_t', 'nv_stump_split_fit({self}, {&0})'), (r'^parameter\|', '@drop'),
+              (r'^indices\|nano::cluster_t', 'nv_clu_indices_n'), (r'^tensor\|nano::tensor_t<nano::tensor_vector_storage_t, double, 4>', 'nv_t4_tensor')]
+
+
+def dtree_fit_fn():
+    return Fn('dtree_do_fit', DTREE_CPP, 'do_fit', flt='dtree_wlearner_t::do_fit', self_struct='struct nv_dtree_fit', types=DF_TYPES, calls=DF_CALLS,
+              members=DF_MEMBERS, hooks=[nvhooks.param_hook(), size0_hook(DTREE_CPP)])
+
+
 def iter_loop_hook(code, elem):
     """iterator.loop(samples, feature, callback): the lambda is not translated; the overload that was resolved (by the
     std::function parameter type of the callee) must be the one for the expected kind of feature values"""
@@ -375,6 +414,7 @@ def build(tier):
     d = dtree_fns()
     targets.append(Target('dtree_do_predict', [d['do_predict'], d['base_split'], d['do_split']], DH, replace=['dtree_do_split'],
                           loops=1, defines=['NV_DTREE_CALLER']))
+    targets.append(Target('dtree_do_fit', [dtree_fit_fn()], 'specs/C10/dtree_fit.h'))
     MH = 'specs/C10/trymerge.h'
     t = try_merge_fns()
     targets.append(Target('base_try_merge', [t['base']], MH))
@@ -396,11 +436,12 @@ def build(tier):
             'affine: do_predict adds tables[0] * value + tables[1] (at the ghost output coefficient, IEEE operations uninterpreted) to outputs row i exactly for a given value, no other row is written; do_split assigns the single group 0 to samples(i) exactly for a given value',
             'hinge: do_predict adds tables[0] * value + tables[1] to outputs row i iff the value is given and on the active side (left: value < threshold, right: value >= threshold), nothing otherwise and no other row is written; do_split assigns group 0 under the same condition (m_hinge one of the two enumerators); over the reals and with tables[1] == -threshold * tables[0] this is the MARS hinge on both sides (SMT lemmas)',
             'dtree do_split: the walk of any sample through the sibling pairs of m_nodes is a single path that starts at the root pair, follows at every visited pair the stump rule on the sample\'s own value of that pair\'s feature (value < threshold ? first : second child), ends at the first missing value without a group or at a leaf pair with group m_table + side, a row of m_tables; node / table indices in range; samples outside the argument are never assigned; depth 1 (root pair is a leaf pair): one visit, group m_table(root) + (value < threshold ? 0 : 1) = the stump rule',
+            'dtree do_fit (structure only): nodes are stored in sibling pairs at even positions, both members of a pair carry the feature / threshold of the stump fitted for it and are both leaves or both inner nodes; a leaf pair gets the next two rows of m_tables, filled from rows 0 and 1 of that stump\'s tables in this order; an inner member\'s m_next is the later, in-range, even position of the pair fitted on its side (linked exactly when its queued cache is processed); members are replaced iff the returned score is not no_fit_score; depth 1: the stump\'s tables are rows 0 and 1 of m_tables -- this is the representation invariant dtree do_split / do_predict assume',
             'dtree do_predict: through wlearner_t::split (compatibility check, then do_split) the row i of outputs receives exactly one update, the m_tables row of the group split() reports for samples(i), and none if there is no group; depth 1: the stump_do_predict contract',
         ],
         'not_decided': [
             'minimum RSS over the hypothesis class (all do_fit functions, accumulators, criterion): optimisation over float moment sums',
-            'dtree do_fit (the representation invariant of m_nodes and the order in which the stump tables are appended are ASSUMED), termination of the breadth-first walk of do_split (acyclic m_next)',
+            'termination of the breadth-first walks of dtree do_split / do_fit; the scores, samples and stopping rule of dtree do_fit (stump fits are opaque)',
             'hinge do_fit stores tables[1] = -threshold * tables[0] (hypothesis of the SMT lemmas)',
             'numeric value of the scaled coefficients (Eigen *= is recorded, not computed); sums of merged / predicted coefficients are exact only as uninterpreted IEEE terms',
             'nano::find for multi-label values (detail::hash over the row) stays an assumed contract',
@@ -421,11 +462,12 @@ def build(tier):
             'try_merge is called with two different learners (distinct slots of a vector of unique_ptr)',
             'ghost-element model of outputs / tables for affine, hinge: one output coefficient, one row of outputs, all other rows folded into one cell; Eigen statement `outputs.vector(i) += w * value + b` lifted by engine/eigencw (coefficient-wise semantics of Eigen assumed); outputs and tables have the same coefficient shape (learner_t::predict / the functions\' own assert)',
             'm_hinge is hinge_type::left or ::right (set by do_fit; read() does not re-validate the stored byte: for any other value do_predict behaves as right while do_split assigns no group)',
-            'dtree representation invariant (do_fit; not re-validated by read()): m_nodes non-empty, position 0 and every m_next != 0 is the position of a sibling pair inside m_nodes, both members of a pair are leaves (m_next == 0) or both are not, a leaf pair has consecutive tables m_table, m_table + 1 inside m_tables; instantiated at the positions the code reads',
+            'dtree representation invariant (proved for what do_fit stores, target dtree_do_fit; assumed of *this in do_split / do_predict; not re-validated by read()): m_nodes non-empty, position 0 and every m_next != 0 is the position of a sibling pair inside m_nodes, both members of a pair are leaves (m_next == 0) or both are not, a leaf pair has consecutive tables m_table, m_table + 1 inside m_tables; instantiated at the positions the code reads',
             'std::deque is FIFO and stays below max_size(); every entry read by front() was pushed before (pushes are checked to carry a pair position: assume-guarantee over the queue); indices_t / cluster_t abstracted to the ghost sample (cluster_t constructor: no groups; group(s) in [-1, groups); indices(g) = samples of group g)',
             'stump_wlearner_t::split inside dtree by the contract proved in target stump_split (per position), lifted to samples: a sample gets group (value < threshold ? 0 : 1) iff it is among the samples and its value is given',
             'dtree do_predict: samples index valid dataset samples; groups of other samples are rows of m_tables (dtree_do_split.postcondition.3 at those samples); learner_t::critical_compatible throws or returns without other effects; indices_t(indices_cmap_t) copies',
             'm_tables.size() >= m_tables.size<0>() (non-empty target dims)',
+            'dtree do_fit: stump_wlearner_t::fit either fails or stores a feature, a threshold and a 2-row tables tensor; its split() has 2 groups; append(tables, t) adds t as the last row and keeps the others; std::vector / std::deque (FIFO, below max_size()) abstracted to the ghost pair and the caches that link its members (queue invariant by assume-guarantee: every pushed cache refers to the node appended just before, asserted); registered parameter domains (max_depth, min_split in [1, 10]); default member initialisers of cache_t (m_depth 0, m_parent 0) are the zero struct, those of dtree_node_t are pinned by a static_assert',
             'std::remove_if keeps exactly the elements for which the predicate is false, in order, at positions not after their old ones; vector::erase(first, end()) truncates at first',
             'single_feature_wlearner_t::vector(k) is m_tables.vector(k), tables() is m_tables (inline accessors in single.h); feature() is extracted',
             'lambda captures by reference denote the enclosing function\'s variables of the same name (closure objects are modelled as explicit argument lists / capture structs)',
